@@ -252,6 +252,14 @@ def twf_groups(tier):
                     bad(v, m, path + [e[0]], 'GRP entry without a reference')
                 elif depth < 12:
                     walk(v, m, e[1], path + [e[0]], depth + 1)
+            elif e[1] is None and e[0] != 'ANYHL7SEGMENT':
+                # _get_segment_reference reports "not found" by returning the entry's reference: an entry without one
+                # is never found, and group finding leaves the segment directly under the message
+                failures.append({'id': 'seg-entry-without-reference:%s:%s:%s' % (v, m, '/'.join(path + [e[0]])),
+                                 'family': 'seg-entry-without-reference:%s:%s' % (v, m),
+                                 'text': 'v%s %s: the SEG entry %s has no reference (None): parse_message(..., find_groups=True) '
+                                         'places %s directly under the message, where it is not a declared child'
+                                         % (v, m, '/'.join(path + [e[0]]), e[0])})
     for v in VERSIONS:
         L = lib(v)
         for m, ref in sorted(L.MESSAGES.items()):
